@@ -689,7 +689,30 @@ def _register_vector_gradient_rules() -> None:
         VectorUnarySum,
         VectorExpressionSum,
     )
-    from optyx.core.matrices import QuadraticForm
+    from optyx.core.matrices import (
+        QuadraticForm,
+        MatrixSum,
+        FrobeniusNorm,
+        _matrix_entries,
+    )
+
+    @register_gradient(MatrixSum)
+    def gradient_matrix_sum(expr: MatrixSum, wrt: Variable) -> Expression:
+        """Gradient for MatrixSum: sum of the entry gradients (row-major)."""
+        result: Expression = Constant(0.0)
+        for elem in _matrix_entries(expr.matrix):
+            result = _simplify_add(result, gradient(elem, wrt))
+        return result
+
+    @register_gradient(FrobeniusNorm)
+    def gradient_frobenius_norm(expr: FrobeniusNorm, wrt: Variable) -> Expression:
+        """Gradient for Frobenius norm: sum_ij (a_ij / ||A||_F) * d a_ij."""
+        result: Expression = Constant(0.0)
+        for elem in _matrix_entries(expr.matrix):
+            d_elem = gradient(elem, wrt)
+            term = _simplify_mul(_simplify_div(elem, expr), d_elem)
+            result = _simplify_add(result, term)
+        return result
 
     @register_gradient(LinearCombination)
     def gradient_linear_combination(
